@@ -773,6 +773,17 @@ pub fn verif_error_handler(status_code: StatusCode) -> Response {
     error_handler(status_code)
 }
 
+#[cfg(humphrey_verif)]
+impl<State> App<State>
+where
+    State: Send + Sync + 'static,
+{
+    /// The default sub-app with the routes registered so far (verification harness only).
+    pub fn verif_default_subapp(&self) -> &SubApp<State> {
+        &self.default_subapp
+    }
+}
+
 pub(crate) fn get_handler<'a, State>(
     request: &'a Request,
     subapps: &'a [SubApp<State>],
